@@ -183,7 +183,7 @@ func (fr *Frame) call(st *State, v ssa.Value, cc *ssa.CallCommon, in ssa.Instruc
 			setResults(rs)
 			return nil
 		}
-		if it, ok := cc.Value.Type().Underlying().(*types.Interface); ok {
+		if it, ok := U(cc.Value.Type()).(*types.Interface); ok {
 			if cands := vc.ctx.implementations(it, short); len(cands) > 0 && len(cands) <= 12 {
 				return fr.devirtualize(st, cands, recv, args, cc, in, setResults, freshResults)
 			}
@@ -440,7 +440,7 @@ func (fr *Frame) devirtualize(st *State, cands []implCand, recv Term, args []Ter
 		branches = append(branches, b)
 		results = append(results, rs)
 	}
-	if it, ok := cc.Value.Type().Underlying().(*types.Interface); ok && sealedInterface(it) {
+	if it, ok := U(cc.Value.Type()).(*types.Interface); ok && sealedInterface(it) {
 		// an interface with an unexported method can only be implemented in its own package:
 		// the implementations found are all there are
 		vc.assume("sealed interface " + stripTypeArgs(typeKey(cc.Value.Type())) + ": only the in-package implementations exist (it has an unexported method)")
@@ -649,8 +649,8 @@ func (fr *Frame) yieldEffects(yf *ssa.Function, mc *ssa.MakeClosure, binds []Ter
 			switch x := in.(type) {
 			case *ssa.Store:
 				leaf := map[Sort]bool{}
-				vc.leafSorts(x.Addr.Type().Underlying().(*types.Pointer).Elem(), leaf)
-				if a, ok := fv[x.Addr]; ok && vc.tt.Slots(x.Addr.Type().Underlying().(*types.Pointer).Elem()) == 1 {
+				vc.leafSorts(U(x.Addr.Type()).(*types.Pointer).Elem(), leaf)
+				if a, ok := fv[x.Addr]; ok && vc.tt.Slots(U(x.Addr.Type()).(*types.Pointer).Elem()) == 1 {
 					for s := range leaf {
 						ef.exact[s] = append(ef.exact[s], a)
 						if _, has := ef.sorts[s]; !has {
@@ -689,7 +689,7 @@ func (fr *Frame) yieldEffects(yf *ssa.Function, mc *ssa.MakeClosure, binds []Ter
 				ef.maps = true
 			case *ssa.Alloc:
 				leaf := map[Sort]bool{}
-				vc.leafSorts(x.Type().Underlying().(*types.Pointer).Elem(), leaf)
+				vc.leafSorts(U(x.Type()).(*types.Pointer).Elem(), leaf)
 				for s := range leaf {
 					ef.fresh[s] = true
 					if _, has := ef.sorts[s]; !has {
@@ -715,7 +715,7 @@ func (fr *Frame) yieldEffects(yf *ssa.Function, mc *ssa.MakeClosure, binds []Ter
 					switch bi.Name() {
 					case "append":
 						leaf := map[Sort]bool{}
-						vc.leafSorts(cc.Args[0].Type().Underlying().(*types.Slice).Elem(), leaf)
+						vc.leafSorts(U(cc.Args[0].Type()).(*types.Slice).Elem(), leaf)
 						for s := range leaf {
 							ef.unk[s] = true
 							if _, has := ef.sorts[s]; !has {
@@ -724,7 +724,7 @@ func (fr *Frame) yieldEffects(yf *ssa.Function, mc *ssa.MakeClosure, binds []Ter
 						}
 					case "copy":
 						leaf := map[Sort]bool{}
-						vc.leafSorts(cc.Args[0].Type().Underlying().(*types.Slice).Elem(), leaf)
+						vc.leafSorts(U(cc.Args[0].Type()).(*types.Slice).Elem(), leaf)
 						for s := range leaf {
 							ef.unk[s] = true
 							if _, has := ef.sorts[s]; !has {
@@ -1033,7 +1033,7 @@ func (vc *VC) havocModifies(st *State, env *SpecEnv, mods []*Expr, hints map[str
 			}
 			if m.Args[1].Kind == EIdent {
 				if ht, ok := hints[m.Args[1].Name]; ok {
-					if pt, ok := ht.Underlying().(*types.Pointer); ok {
+					if pt, ok := U(ht).(*types.Pointer); ok {
 						leaf := map[Sort]bool{}
 						vc.leafSorts(pt.Elem(), leaf)
 						slots := vc.tt.Slots(pt.Elem())
@@ -1054,7 +1054,7 @@ func (vc *VC) havocModifies(st *State, env *SpecEnv, mods []*Expr, hints map[str
 			if err != nil {
 				return err
 			}
-			sl, ok := x.Ty.Underlying().(*types.Slice)
+			sl, ok := U(x.Ty).(*types.Slice)
 			if !ok {
 				return fmt.Errorf("modifies %s: not a slice", m.String())
 			}
@@ -1138,7 +1138,7 @@ func (fr *Frame) builtin(st *State, b *ssa.Builtin, cc *ssa.CallCommon, args []T
 	case "len", "cap":
 		a := args[0]
 		var r Term
-		switch u := cc.Args[0].Type().Underlying().(type) {
+		switch u := U(cc.Args[0].Type()).(type) {
 		case *types.Slice:
 			if b.Name() == "len" {
 				r = SLen(a)
@@ -1153,7 +1153,7 @@ func (fr *Frame) builtin(st *State, b *ssa.Builtin, cc *ssa.CallCommon, args []T
 		case *types.Array:
 			r = IntLit(u.Len())
 		case *types.Pointer:
-			if arr, ok := u.Elem().Underlying().(*types.Array); ok {
+			if arr, ok := U(u.Elem()).(*types.Array); ok {
 				r = IntLit(arr.Len())
 			}
 		case *types.Chan:
@@ -1166,7 +1166,7 @@ func (fr *Frame) builtin(st *State, b *ssa.Builtin, cc *ssa.CallCommon, args []T
 		}
 		return []Term{vc.fromIndex(st, r, types.Typ[types.Int])}, nil
 	case "append":
-		st0 := cc.Args[0].Type().Underlying().(*types.Slice)
+		st0 := U(cc.Args[0].Type()).(*types.Slice)
 		elem := st0.Elem()
 		s := args[0]
 		if len(args) < 2 {
@@ -1176,7 +1176,7 @@ func (fr *Frame) builtin(st *State, b *ssa.Builtin, cc *ssa.CallCommon, args []T
 		var tl Term
 		var tbase Term
 		strSrc := false
-		switch cc.Args[1].Type().Underlying().(type) {
+		switch U(cc.Args[1].Type()).(type) {
 		case *types.Slice:
 			tl = SLen(t)
 			tbase = SBase(t)
@@ -1191,7 +1191,7 @@ func (fr *Frame) builtin(st *State, b *ssa.Builtin, cc *ssa.CallCommon, args []T
 		constN := int64(-1)
 		if sl, ok := cc.Args[1].(*ssa.Slice); ok && sl.Low == nil && sl.High == nil && !strSrc {
 			if al, ok := sl.X.(*ssa.Alloc); ok {
-				if arr, ok := al.Type().Underlying().(*types.Pointer).Elem().Underlying().(*types.Array); ok && arr.Len() <= 4 {
+				if arr, ok := U(U(al.Type()).(*types.Pointer).Elem()).(*types.Array); ok && arr.Len() <= 4 {
 					constN = arr.Len()
 				}
 			}
@@ -1250,10 +1250,10 @@ func (fr *Frame) builtin(st *State, b *ssa.Builtin, cc *ssa.CallCommon, args []T
 		return []Term{vc.Define("app", res)}, nil
 	case "copy":
 		dst, src := args[0], args[1]
-		elem := cc.Args[0].Type().Underlying().(*types.Slice).Elem()
+		elem := U(cc.Args[0].Type()).(*types.Slice).Elem()
 		var sl Term
 		var strSrc bool
-		switch cc.Args[1].Type().Underlying().(type) {
+		switch U(cc.Args[1].Type()).(type) {
 		case *types.Slice:
 			sl = SLen(src)
 		default:
@@ -1269,7 +1269,7 @@ func (fr *Frame) builtin(st *State, b *ssa.Builtin, cc *ssa.CallCommon, args []T
 		return []Term{vc.fromIndex(st, n, types.Typ[types.Int])}, nil
 	case "delete":
 		m, key := args[0], args[1]
-		mt := cc.Args[0].Type().Underlying().(*types.Map)
+		mt := U(cc.Args[0].Type()).(*types.Map)
 		ks, err1 := vc.tt.SortOf(mt.Key())
 		vs, err2 := vc.tt.SortOf(mt.Elem())
 		if err1 != nil || err2 != nil {
@@ -1282,7 +1282,7 @@ func (fr *Frame) builtin(st *State, b *ssa.Builtin, cc *ssa.CallCommon, args []T
 		vc.setMapHeap(st, "dom", ks, vs, Store(domH, Rid(m), Store(Select(domH, Rid(m)), key, False)))
 		return nil, nil
 	case "clear":
-		mt, ok := cc.Args[0].Type().Underlying().(*types.Map)
+		mt, ok := U(cc.Args[0].Type()).(*types.Map)
 		if !ok {
 			return nil, fmt.Errorf("clear of a non-map")
 		}
@@ -1360,7 +1360,7 @@ func (fr *Frame) callEffects(ci ssa.CallInstruction, li *loopInfo, ef *effects) 
 		if cc.Method.Name() == "Error" || cc.Method.Name() == "String" || isEffectFree(key) {
 			return
 		}
-		if it, ok := cc.Value.Type().Underlying().(*types.Interface); ok && sealedInterface(it) {
+		if it, ok := U(cc.Value.Type()).(*types.Interface); ok && sealedInterface(it) {
 			if cands := vc.ctx.implementations(it, cc.Method.Name()); len(cands) > 0 && len(cands) <= 12 {
 				for _, cand := range cands {
 					fr.funcEffects(cand.fn, ef, 0)
@@ -1386,9 +1386,9 @@ func (fr *Frame) callEffects(ci ssa.CallInstruction, li *loopInfo, ef *effects) 
 		switch callee.Name() {
 		case "append":
 			ef.alloc = true
-			markUnk(cc.Args[0].Type().Underlying().(*types.Slice).Elem())
+			markUnk(U(cc.Args[0].Type()).(*types.Slice).Elem())
 		case "copy":
-			elem := cc.Args[0].Type().Underlying().(*types.Slice).Elem()
+			elem := U(cc.Args[0].Type()).(*types.Slice).Elem()
 			leaf := map[Sort]bool{}
 			vc.leafSorts(elem, leaf)
 			root, ok := fr.rootOf(cc.Args[0], li)
@@ -1428,7 +1428,7 @@ func modTarget(e *Expr, names []string, tys []types.Type) (int, types.Type, bool
 		if e.Op == "*" {
 			i, t, ok := modTarget(e.Args[0], names, tys)
 			if ok {
-				if p, ok := t.Underlying().(*types.Pointer); ok {
+				if p, ok := U(t).(*types.Pointer); ok {
 					return i, p.Elem(), true
 				}
 			}
@@ -1436,7 +1436,7 @@ func modTarget(e *Expr, names []string, tys []types.Type) (int, types.Type, bool
 	case EField:
 		i, t, ok := modTarget(e.Args[0], names, tys)
 		if ok {
-			if p, isP := t.Underlying().(*types.Pointer); isP {
+			if p, isP := U(t).(*types.Pointer); isP {
 				t = p.Elem()
 			}
 			if obj, _ := lookupFieldAnyPkg(t, e.Op); obj != nil {
@@ -1446,13 +1446,13 @@ func modTarget(e *Expr, names []string, tys []types.Type) (int, types.Type, bool
 	case ESlice, EIndex:
 		i, t, ok := modTarget(e.Args[0], names, tys)
 		if ok {
-			switch u := t.Underlying().(type) {
+			switch u := U(t).(type) {
 			case *types.Slice:
 				return i, u.Elem(), true
 			case *types.Array:
 				return i, u.Elem(), true
 			case *types.Pointer:
-				if a, ok := u.Elem().Underlying().(*types.Array); ok {
+				if a, ok := U(u.Elem()).(*types.Array); ok {
 					return i, a.Elem(), true
 				}
 			}
@@ -1482,7 +1482,7 @@ func (fr *Frame) contractCallEffects(c *FuncContract, sig *types.Signature, recv
 					continue
 				}
 				if mi, ok := argVals[i].(*ssa.MakeInterface); ok {
-					if pt, ok := mi.X.Type().Underlying().(*types.Pointer); ok {
+					if pt, ok := U(mi.X.Type()).(*types.Pointer); ok {
 						leaf := map[Sort]bool{}
 						vc.leafSorts(pt.Elem(), leaf)
 						root, rok := fr.rootOf(mi.X, li)
@@ -1531,8 +1531,8 @@ func (fr *Frame) contractCallEffects(c *FuncContract, sig *types.Signature, recv
 		}
 		// p.f with a single-slot field of a loop-invariant pointer parameter: the exact address
 		if m.Kind == EField && m.Args[0].Kind == EIdent && vc.tt.Slots(t) == 1 && rok && root.Valid() {
-			if pt, isP := tys[idx].Underlying().(*types.Pointer); isP {
-				if stt, isS := pt.Elem().Underlying().(*types.Struct); isS {
+			if pt, isP := U(tys[idx]).(*types.Pointer); isP {
+				if stt, isS := U(pt.Elem()).(*types.Struct); isS {
 					if pv, err := fr.value(argVals[idx]); err == nil && pv.Sort == SRef {
 						done := false
 						for fi := 0; fi < stt.NumFields(); fi++ {
@@ -1621,7 +1621,7 @@ func (fr *Frame) funcEffects(fn *ssa.Function, ef *effects, depth int) {
 			switch x := in.(type) {
 			case *ssa.Store:
 				leaf := map[Sort]bool{}
-				vc.leafSorts(x.Addr.Type().Underlying().(*types.Pointer).Elem(), leaf)
+				vc.leafSorts(U(x.Addr.Type()).(*types.Pointer).Elem(), leaf)
 				for s := range leaf {
 					ef.unk[s] = true
 					if _, has := ef.sorts[s]; !has {
@@ -1634,7 +1634,7 @@ func (fr *Frame) funcEffects(fn *ssa.Function, ef *effects, depth int) {
 			case *ssa.Alloc:
 				ef.alloc = true
 				leaf := map[Sort]bool{}
-				vc.leafSorts(x.Type().Underlying().(*types.Pointer).Elem(), leaf)
+				vc.leafSorts(U(x.Type()).(*types.Pointer).Elem(), leaf)
 				for s := range leaf {
 					ef.unk[s] = true
 					if _, has := ef.sorts[s]; !has {
@@ -1644,7 +1644,7 @@ func (fr *Frame) funcEffects(fn *ssa.Function, ef *effects, depth int) {
 			case *ssa.MakeSlice:
 				ef.alloc = true
 				leaf := map[Sort]bool{}
-				vc.leafSorts(x.Type().Underlying().(*types.Slice).Elem(), leaf)
+				vc.leafSorts(U(x.Type()).(*types.Slice).Elem(), leaf)
 				for s := range leaf {
 					ef.unk[s] = true
 					if _, has := ef.sorts[s]; !has {
@@ -1672,7 +1672,7 @@ func (fr *Frame) funcEffects(fn *ssa.Function, ef *effects, depth int) {
 					case "append", "copy":
 						ef.alloc = true
 						leaf := map[Sort]bool{}
-						vc.leafSorts(cc.Args[0].Type().Underlying().(*types.Slice).Elem(), leaf)
+						vc.leafSorts(U(cc.Args[0].Type()).(*types.Slice).Elem(), leaf)
 						for s := range leaf {
 							ef.unk[s] = true
 							if _, has := ef.sorts[s]; !has {
